@@ -1,6 +1,70 @@
-/- Props/C17.lean — placeholder until Proofs/RtMap.lean lands -/
-import FerretVerif.Model.RtMap
+/-
+  Props/C17.lean — C17: runtime maps and dynamic arrays behave as abstract maps and lists.
+
+  About Model/RtMap.lean (transcription of runtime/core/map.c and array.c), for ANY key type and ANY hash
+  function (so for the i32 / i64 / string / byte-blob instantiations alike, and regardless of collisions).
+  Tied to the C code on every run by checks/c17.py (exact output equality incl. iteration order, under
+  ASan/UBSan/LSan).  Memory safety: the model carries the SPATIAL obligations (indices in bounds); lifetimes
+  (use-after-free, leaks) have no counterpart in a pure model and are sanitizer-observed only.
+-/
+import FerretVerif.Proofs.RtMap
+
 namespace FerretVerif.C17
 open FerretVerif.RtMap
-theorem threshold_16 : threshold 16 = 12 ∧ threshold 32 = 24 := by decide
+variable {K V : Type} [DecidableEq K]
+
+/-- REFINEMENT: for every history of set/get/has/size/iterate from a new map, the hash table's outputs agree
+    with the abstract association list's (iteration: same entries, each exactly once, order free) -/
+theorem map_refines (hash : K → Nat) (ops : List (Op K V)) :
+    Rel hash (runImpl hash (new : Map K V) ops).1 (runSpec ([] : Spec K V) ops).1 ∧
+      OutsAgree (runImpl hash (new : Map K V) ops).2 (runSpec ([] : Spec K V) ops).2 := history_refines hash ops
+
+/-- the representation invariant (bucket discipline, no duplicate keys, size = #entries) holds initially and
+    is preserved by every operation, including the rehash on resize and from_pairs -/
+theorem inv_new (hash : K → Nat) : Inv hash (new : Map K V) := RtMap.inv_new hash
+theorem inv_set {hash : K → Nat} {m : Map K V} (h : Inv hash m) (k : K) (v : V) : Inv hash (set hash m k v) := RtMap.inv_set h k v
+theorem inv_resize {hash : K → Nat} {m : Map K V} {n : Nat} (h : Inv hash m) (hn : 0 < n) : Inv hash (resize hash m n) :=
+  RtMap.inv_resize h hn
+theorem inv_fromPairs (hash : K → Nat) (ps : List (K × V)) : Inv hash (fromPairs hash ps) := RtMap.inv_fromPairs hash ps
+
+/-- a key returns the value most recently stored under it … -/
+theorem get_set_same {hash : K → Nat} {m : Map K V} (h : Inv hash m) (k : K) (v : V) :
+    get hash (set hash m k v) k = some v := RtMap.get_set_same h k v
+/-- … other keys are untouched, a new map is empty, a resize changes nothing observable -/
+theorem get_set_other {hash : K → Nat} {m : Map K V} (h : Inv hash m) {k k' : K} (hne : k' ≠ k) (v : V) :
+    get hash (set hash m k v) k' = get hash m k' := RtMap.get_set_other h hne v
+theorem get_new (hash : K → Nat) (k : K) : get hash (new : Map K V) k = none := RtMap.get_new hash k
+theorem resize_preserves_get {hash : K → Nat} {m : Map K V} {n : Nat} (h : Inv hash m) (hn : 0 < n) (k : K) :
+    get hash (resize hash m n) k = get hash m k := RtMap.resize_preserves_get h hn k
+
+/-- size is the number of distinct keys -/
+theorem size_is_distinct_keys {hash : K → Nat} {m : Map K V} (h : Inv hash m) (k : K) (v : V) :
+    (set hash m k v).size = if (get hash m k).isSome then m.size else m.size + 1 := RtMap.size_set h k v
+
+/-- iteration visits each entry exactly once -/
+theorem iter_visits_each_once {hash : K → Nat} {m : Map K V} (h : Inv hash m) :
+    ((iterate m).map (·.1)).Nodup ∧ (iterate m).length = m.size ∧ ∀ k v, (k, v) ∈ iterate m ↔ get hash m k = some v :=
+  ⟨iterate_nodup_keys h, iterate_length h, mem_iterate_iff h⟩
+
+/-- from_pairs: the last pair with a given key wins -/
+theorem fromPairs_last_wins (hash : K → Nat) (ps : List (K × V)) (k : K) :
+    get hash (fromPairs hash ps) k = (ps.reverse.find? (fun p => decide (p.1 = k))).map (·.2) := RtMap.fromPairs_spec hash ps k
+
+/-- spatial safety: the bucket index used by get/set is inside the bucket array -/
+theorem bucket_index_in_bounds {hash : K → Nat} {m : Map K V} (h : Inv hash m) (k : K) :
+    hash k % m.buckets.length < m.buckets.length ∧ hash k % (presize hash m).buckets.length < (presize hash m).buckets.length :=
+  ⟨get_index_in_bounds h k, set_index_in_bounds h k⟩
+
+/-- dynamic array: any history of appends/sets yields exactly the abstract list, and the write position of an
+    append is always inside the (possibly re-grown) allocation -/
+theorem array_refines (ops : List (ArrOp V)) (c : Nat) :
+    (ops.foldl Arr.step (Arr.new c)).data = ops.foldl listStep [] ∧ ArrInv (ops.foldl Arr.step (Arr.new c)) :=
+  arr_refines_list_new ops c
+theorem append_len (a : Arr V) (x : V) : (a.append x).len = a.len + 1 ∧ (a.append x).get (a.len : Int) = some x :=
+  ⟨arr_len_append a x, arr_get_append a x⟩
+theorem array_oor_refused (a : Arr V) (x : V) (i : Int) (h : i < 0 ∨ i ≥ a.len) :
+    a.get i = none ∧ (a.set i x).2 = false ∧ (a.set i x).1 = a := arr_oor_refused a x i h
+theorem append_write_in_bounds (a : Arr V) (x : V) (h : ArrInv a) : a.data.length < (a.append x).capacity :=
+  arr_append_write_in_bounds a x h
+
 end FerretVerif.C17
